@@ -23,7 +23,9 @@ META = {
             "with the two real incompleteness cases - a class taking the '/', '??' taking a wide rune - as "
             "refutations confirmed against the toolchain's path.Match), filepath.Glob level by level with its error paths, and source "
             "trees with symbolic links (the recursive listing never follows one; its members are characterised entry "
-            "by entry, and a non-directory entry of any name - a '.git' file or link - never prunes its siblings).  The model is tied to the code by exhaustive small-string "
+            "by entry, and a non-directory entry of any name - a '.git' file or link - never prunes its siblings; several file sets of one build file made with one "
+            "env list each what it lists alone, in every declaration order: real builds of three file sets per build "
+            "file, and a shared listing filtered in place is refuted).  The model is tied to the code by exhaustive small-string "
             "and generated differential runs evaluated inside Coq, and by translator obligations on the "
             "source text of the resolution functions, the exclusion lists and the table of resolver calls.",
     "note": "Trusted: Coq kernel + vm_compute; translator gen/caco_names.go; harness and caco3/verif_names.go shim; "
@@ -392,6 +394,22 @@ def run(ck):
         for line in out.splitlines():
             if line.startswith("{"):
                 cases.append(json.loads(line))
+
+    # several file sets built by one Builder in one call: one case per rule, each judged on its own
+    # (a file set's listing is a function of the tree and its own patterns only)
+    expanded = []
+    for c in cases:
+        if c["op"] != "buildmany":
+            expanded.append(c)
+            continue
+        order = [r["name"] for r in c.get("rules") or []]
+        many = c.get("many") or []
+        for k, r in enumerate(c.get("rules") or []):
+            m = many[k] if k < len(many) else {"out": "", "outs": [], "err": c.get("err") or "other:not built"}
+            expanded.append(dict(c, op="build", rule=r, out=m.get("out", ""), outs=m.get("outs") or [],
+                                 err=m.get("err") or c.get("err") or "", changed=[],
+                                 declared_in_one_build_file=order))
+    cases = expanded
 
     ops = {}
     for c in cases:
